@@ -28,6 +28,8 @@ OPTSETS = [
     ["warehouse-package-name=custom-dist", "transport=rest", "rest-numeric-enums"],
     # bare flags (the spelling build rules use): their value must not depend on what precedes them
     ["autogen-snippets"], ["metadata", "autogen-snippets", "transport=grpc"], ["transport=grpc+rest", "rest-numeric-enums", "autogen-snippets"],
+    # namespace overrides of three and four segments in ONE dotted value
+    ["python-gapic-namespace=alt.deep.space"], ["python-gapic-namespace=a.b.c.d", "python-gapic-name=deep_name", "transport=grpc+rest"],
 ]
 NOISE = [
     ["foo"], ["foo=bar"], ["go-gapic-package=cloud.google.com/go/x/apiv1;x"], ["python-gapic-unknown-flag=1"],
@@ -38,7 +40,7 @@ NOISE = [
 
 def floors(tier):
     k = 1 if tier == "quick" else 10
-    return {"responses_judged": 80 * k, "metamorphic_pairs": 80 * k, "file_names_judged": 3000 * k, "repeated_key_pairs": 25 * k, "yaml_feature_cases": 8 * k}
+    return {"responses_judged": 80 * k, "metamorphic_pairs": 80 * k, "file_names_judged": 3000 * k, "repeated_key_pairs": 25 * k, "yaml_feature_cases": 8 * k, "sub_package_cases": 3 * k, "unversioned_flag_seen_effective": 2 * k}
 
 
 def plan(seed, tier):
@@ -49,11 +51,19 @@ def plan(seed, tier):
     for i, c in enumerate(cases):
         if i % 7 == 3:
             c["yaml"] = ["unversioned_disabled", "unversioned_enabled", "unversioned_disabled", "other_features"][(i // 7) % 4]
+    cases += [{"id": f"lay-sub-{seed}-{i}", "seed": seed * 100003 + 7000 + i, "optset": 0, "noise": i % len(NOISE), "subpkg": True}
+              for i in range(4 if tier == "quick" else 30)]
     return cases
 
 
 def build_api(case):
     rng = random.Random(case["seed"])
+    if case.get("subpkg"):
+        # sibling proto sub-packages (one a character prefix of another), each with types and a service
+        api = apigen.prefix_packages_api(rng, "l%d" % (case["seed"] % 100000), layout="prefix3", services=True)
+        api.options = ["transport=grpc+rest", "autogen-snippets=false"] + (["metadata"] if case["seed"] % 2 else [])
+        api.tags.add("sibling-sub-packages")
+        return api
     api = apigen.layout_api(rng, "l%d" % (case["seed"] % 100000))
     api.options = list(OPTSETS[case["optset"]])
     if case.get("yaml"):
@@ -61,7 +71,8 @@ def build_api(case):
         # must be laid out as always (only the unversioned alias package may go away)
         feats = {"unversioned_disabled": {"unversioned_package_disabled": True},
                  "unversioned_enabled": {"unversioned_package_disabled": False},
-                 "other_features": {"protobuf_pythonic_types_enabled": True}}   # (rest_async_io_enabled legitimately adds transport files)[case["yaml"]]
+                 # (rest_async_io_enabled is not among them: it legitimately adds transport files)
+                 "other_features": {"protobuf_pythonic_types_enabled": True}}[case["yaml"]]
         pub = {"library_settings": [{"version": api.info["pkg"], "python_settings": {"experimental_features": feats}}]}
         api.aux["service-yaml"] = ("svc.yaml", apigen.service_yaml(api, publishing=pub))
         api.tags.add("yaml:" + case["yaml"])
@@ -124,7 +135,17 @@ def judge_response(req, api, opts, res):
                 break
             d = posixpath.dirname(d)
     # types modules <-> target files with types (bijection by top-level class names)
-    tmods = [n for n in names if n.startswith(root + "/types/") and n.endswith(".py") and not n.endswith("__init__.py")]
+    # types modules anywhere below the root (sub-packages have their own types/ directory)
+    # (the directory that holds the module is named `types`; a SUB-PACKAGE may itself be called `types`)
+    tmods = [n for n in names if n.startswith(root + "/") and posixpath.basename(posixpath.dirname(n)) == "types" and n.endswith(".py")
+             and not n.endswith("__init__.py")]
+    base_pkg = api.info["pkg"]
+    for p in tfiles:
+        # placement: <root>/<proto sub-package>/types/<file base name>.py
+        sub = p.package[len(base_pkg):].strip(".").replace(".", "/")
+        want_path = root + "/" + (sub + "/" if sub else "") + "types/" + posixpath.basename(p.name)[:-6] + ".py"
+        if (p.message_type or p.enum_type) and sub and want_path not in names:
+            bad("types-module-misplaced", {"file": p.name, "expected": want_path, "modules": sorted(tmods)[:8]}, subpackage=True)
     want = {}
     for p in tfiles:
         want[p.name] = {m.name for m in p.message_type} | {e.name for e in p.enum_type}
@@ -149,7 +170,8 @@ def judge_response(req, api, opts, res):
             bad("types-module-count", {"per_file_types": a, "per_module_classes": b, "modules": sorted(seen)})
     # services
     svcs = [(p, s.name) for p in tfiles for s in p.service]
-    clients = [n for n in names if n.startswith(root + "/services/") and n.endswith("/client.py")]
+    clients = [n for n in names if n.startswith(root + "/") and n.endswith("/client.py")
+               and posixpath.basename(posixpath.dirname(posixpath.dirname(n))) == "services"]
     found = {}
     for n in clients:
         try:
@@ -213,6 +235,13 @@ def run_case(case):
     counters["responses_judged"] = 1
     if case.get("yaml"):
         counters["yaml_feature_cases"] = 1
+        if case["yaml"] == "unversioned_disabled":
+            # did the setting reach the generator at all?  (its documented effect: no unversioned alias package)
+            root_, alias_, _tr, _tf = expected(req, api, api.options)
+            if alias_ != root_:
+                counters["unversioned_flag_seen_effective"] = int(not any(f.name.startswith(alias_ + "/") for f in g.response.file))
+    if case.get("subpkg"):
+        counters["sub_package_cases"] = 1
     counters["file_names_judged"] = nnames
     # metamorphic: unknown / repeated options are ignored
     noise = NOISE[case["noise"]]
